@@ -133,3 +133,15 @@ M('guard:shared_lock-unlock-exclusive', ['C12'], 'mutex.hpp', "		_mutex->unlock_
 M('guard:shared_lock-adopt-not-owning', ['C12'], 'mutex.hpp', "	[[nodiscard]] shared_lock(adopt_lock_t, Mutex &mutex)\n	: _mutex{&mutex}, _is_locked{true} { }", "	[[nodiscard]] shared_lock(adopt_lock_t, Mutex &mutex)\n	: _mutex{&mutex}, _is_locked{false} { }")
 M('guard:qs-lock_guard-unlock-locks', ['C12', 'C11'], 'qs.hpp', "		FRG_ASSERT(_locked);\n		_mutex->unlock();", "		FRG_ASSERT(_locked);\n		_mutex->lock();")
 M('guard:unique_lock-protects-ignores-flag', ['C12'], 'mutex.hpp', "		return _is_locked && mutex == _mutex;\n	}\n\nprivate:\n	Mutex *_mutex;\n	bool _is_locked;\n};\n\ntemplate<typename Mutex>\nclass shared_lock {", "		return mutex == _mutex;\n	}\n\nprivate:\n	Mutex *_mutex;\n	bool _is_locked;\n};\n\ntemplate<typename Mutex>\nclass shared_lock {")
+
+# ---------------------------------------------------------------- C11 QS domain
+M('qs:acks-relaxed', ['C11'], 'qs.hpp', "_dom->_agents_to_ack.fetch_sub(1, std::memory_order_acq_rel) == 1", "_dom->_agents_to_ack.fetch_sub(1, std::memory_order_relaxed) == 1", count=2)
+M('qs:run-loads-counter-relaxed', ['C11'], 'qs.hpp', "		FRG_VERIF_POINT(\"qs.run.load_counter\", _dom, 0);\n		auto ctr = _dom->_qs_counter.load(std::memory_order_acquire);", "		FRG_VERIF_POINT(\"qs.run.load_counter\", _dom, 0);\n		auto ctr = _dom->_qs_counter.load(std::memory_order_relaxed);")
+M('qs:run-pops-after-callback', ['C11'], 'qs.hpp', "			_pending.pop_front();\n			node->_target_qs_counter = 0;\n			FRG_VERIF_POINT(\"qs.run.callback\", node, ctr);\n			node->on_grace_period(node);\n			FRG_VERIF_POINT(\"qs.run.callback_returned\", this, ctr);", "			node->_target_qs_counter = 0;\n			FRG_VERIF_POINT(\"qs.run.callback\", node, ctr);\n			node->on_grace_period(node);\n			FRG_VERIF_POINT(\"qs.run.callback_returned\", this, ctr);\n			_pending.pop_front();")
+M('qs:await-target-plus-one', ['C11'], 'qs.hpp', "		FRG_VERIF_POINT(\"qs.barrier.load_counter\", _dom, 0);\n		auto target = _dom->_qs_counter.load(std::memory_order_relaxed) + 2;\n		FRG_VERIF_POINT(\"qs.barrier.load_desired\", _dom, target);\n		auto c = _dom->_desired_qs_counter.load(std::memory_order_relaxed);\n		while(c < target) {\n			FRG_VERIF_POINT(\"qs.barrier.cas_desired\", _dom, target);\n			if(_dom->_desired_qs_counter.compare_exchange_weak(c, target,\n					std::memory_order_relaxed, std::memory_order_relaxed))\n				break;\n		}\n\n		FRG_ASSERT(!node->_target_qs_counter);", "		FRG_VERIF_POINT(\"qs.barrier.load_counter\", _dom, 0);\n		auto target = _dom->_qs_counter.load(std::memory_order_relaxed) + 1;\n		FRG_VERIF_POINT(\"qs.barrier.load_desired\", _dom, target);\n		auto c = _dom->_desired_qs_counter.load(std::memory_order_relaxed);\n		while(c < target) {\n			FRG_VERIF_POINT(\"qs.barrier.cas_desired\", _dom, target);\n			if(_dom->_desired_qs_counter.compare_exchange_weak(c, target,\n					std::memory_order_relaxed, std::memory_order_relaxed))\n				break;\n		}\n\n		FRG_ASSERT(!node->_target_qs_counter);")
+M('qs:run-one-period-early', ['C11'], 'qs.hpp', "			if(ctr < node->_target_qs_counter)\n				break;", "			if(ctr + 1 < node->_target_qs_counter)\n				break;")
+M('qs:advance-without-ack-reset', ['C11'], 'qs.hpp', "						FRG_VERIF_POINT(\"qs.qs.store_acks\", _dom, _dom->_num_agents);\n						_dom->_agents_to_ack.store(_dom->_num_agents, std::memory_order_relaxed);\n", "						FRG_VERIF_POINT(\"qs.qs.store_acks\", _dom, _dom->_num_agents);\n")
+M('qs:deferred-period-not-restarted', ['C11'], 'qs.hpp', "			if(desired > _acked_qs_counter) {\n				lock_guard<M> lock(_dom->_mutex);", "			if(desired > _acked_qs_counter + 1) {\n				lock_guard<M> lock(_dom->_mutex);")
+M('qs:offline-skips-ack', ['C11'], 'qs.hpp', "			if(_acked_qs_counter != ctr) {\n				FRG_ASSERT(_acked_qs_counter + 1 == ctr);\n\n				// Now ack the QS.\n				FRG_VERIF_POINT(\"qs.offline.ack\", _dom, ctr);", "			if(_acked_qs_counter != ctr && _dom->_num_agents == 0) {\n				FRG_ASSERT(_acked_qs_counter + 1 == ctr);\n\n				// Now ack the QS.\n				FRG_VERIF_POINT(\"qs.offline.ack\", _dom, ctr);")
+M('qs:joiner-must-ack-current', ['C11'], 'qs.hpp', "		_acked_qs_counter = ctr;\n	}\n\n	void offline() {", "		_acked_qs_counter = (_dom->_num_agents > 1 && ctr > 1) ? ctr - 1 : ctr;\n	}\n\n	void offline() {")
+M('qs:last-acker-never-defers-but-forgets-lock', ['C11'], 'qs.hpp', "					if(desired > ctr) {\n						lock_guard<M> lock(_dom->_mutex);\n", "					if(desired > ctr) {\n")
